@@ -33,7 +33,7 @@ THEOREMS = [P + t for t in (
     "aligned", "aligned_index", "indexTuples_valid", "axes_grid", "corr2_ordered", "anti_index",
     "parse_in_range", "parse_int", "parse_float", "parse_list", "parse_interval",
     "parse_slice_forward", "parse_slice_reversed",
-    "dt_governs", "dt_tables", "anti_conj", "order_test_exact",
+    "dt_governs", "dt_tables", "anti_conj", "order_test_exact", "entry_value",
     "coup_op_rebuilt", "sys_corr_feeds", "parse_slice_upto", "sys_corr_steps", "kernel_assembly",
     "kernel_cell_exact", "kernel_cell_algebraic", "kernel_diag_exact",
     "kernel_diag_degenerate_partial",
@@ -397,6 +397,7 @@ def correspondence(res, tier, rng, corpus_cases=()):
     bath_correspondence(res, tier, rng)
     bath_steps_correspondence(res, tier, rng)
     bath_axes_correspondence(res, tier)
+    values_correspondence(res, tier)
 
 
 def value_table(rig, n, s, d, k, mode):
@@ -1059,6 +1060,86 @@ class AncillaRig:
         return None
 
 
+def _exact_nt(rig, ops, orders, rho_sys, steps):
+    """tr(O_last E(.. S_1(E(S_0(rho(t_0)))))) with S_k = O_k . (left) or . O_k (right)"""
+    big = lambda x: np.kron(rig.i2, x)     # noqa: E731
+    r = np.kron(rig.rho_anc, rho_sys)
+    at = 0
+    for o, od, st in zip(ops[:-1], orders[:-1], steps[:-1]):
+        r = rig.evolve(r, st - at)
+        at = st
+        r = big(o) @ r if od == "left" else r @ big(o)
+    r = rig.evolve(r, steps[-1] - at)
+    return np.trace(big(ops[-1]) @ r)
+
+
+def _compare_nt(rig, ops, orders, rho_sys, nmax):
+    k = len(ops)
+    times, corr = rig.oqupy.compute_correlations_nt(
+        system=rig.system, process_tensor=rig.pt, operators=list(ops),
+        ops_times=[slice(0, nmax + 1)] * k, ops_order=list(orders), initial_state=rho_sys,
+        start_time=0.0, dt=rig.dt, progress_type="silent")
+    for iota in itertools.product(range(nmax + 1), repeat=k):
+        z = complex(corr[iota])
+        if any(iota[j] > iota[j + 1] for j in range(k - 1)):
+            if not np.isnan(z.real):
+                return {"steps": list(iota), "got": repr(z), "expected": "NaN"}
+            continue
+        ref = complex(_exact_nt(rig, ops, orders, rho_sys, iota))
+        if not abs(z - ref) < 1e-9:
+            return {"steps": list(iota), "got": repr(z), "exact_joint_evolution": repr(ref)}
+    return None
+
+
+def value_cases():
+    sm = np.array([[0, 0], [1, 0]], dtype=complex)
+    sy = np.array([[0, -1j], [1j, 0]], dtype=complex)
+    gen = np.array([[0.3 + 0.1j, -0.7j], [0.5, 0.2 - 0.4j]])
+    rho_h = np.array([[0.6, 0.1 + 0.25j], [0.1 - 0.25j, 0.4]])
+    rho_nh = np.array([[0.6, 0.3 + 0.2j], [-0.1j, 0.4]])
+    named = {"sigma_y": sy, "sigma_minus": sm, "generic complex": gen}
+    return named, {"hermitian": rho_h, "non-hermitian": rho_nh}
+
+
+def values_correspondence(res, tier):
+    """always run: entries vs the brute-force joint evolution of system + ancilla (1e-9), with
+    non-symmetric operators in every position, two and three operators, ordered and anti"""
+    rig = AncillaRig()
+    named, rhos = value_cases()
+    seen = set()
+
+    def report(cls, key, payload):
+        if cls not in seen:
+            seen.add(cls)
+            res.fail(key, payload)
+    pairs2 = [("sigma_y", "sigma_minus"), ("sigma_minus", "generic complex"),
+              ("generic complex", "sigma_y")]
+    for rname in (["hermitian"] if tier == "quick" else ["hermitian", "non-hermitian"]):
+        for na, nb in pairs2:
+            for anti in (False, True):
+                bad = rig.compare(named[na], named[nb], rhos[rname], anti)
+                res.case("value %s %s %s %s" % (na, nb, rname, anti), True)
+                res.count("value:2-operator")
+                if bad:
+                    mode = "anti" if anti else "ordered"
+                    report("value-" + mode, "%s-value:A=%s B=%s initial_state=%s" % (mode, na, nb, rname),
+                           dict(bad, api="compute_correlations", time_order=mode, operator_a=na,
+                                operator_b=nb, initial_state=rname, dt=rig.dt,
+                                process_tensor="exact ancilla qubit (SimpleProcessTensor, no stored dt)"))
+    triples = [(("sigma_y", "sigma_minus", "generic complex"), ("left", "left", "left")),
+               (("generic complex", "sigma_y", "sigma_minus"), ("right", "left", "left")),
+               (("sigma_minus", "generic complex", "sigma_y"), ("left", "right", "left"))]
+    for names, orders in triples:
+        bad = _compare_nt(rig, [named[x] for x in names], orders, rhos["non-hermitian"], 3)
+        res.case("value nt %s %s" % (names, orders), True)
+        res.count("value:3-operator")
+        if bad:
+            report("value-nt", "nt-value:operators=%s ops_order=%s" % (",".join(names), ",".join(orders)),
+                   dict(bad, api="compute_correlations_nt", operators=list(names), ops_order=list(orders),
+                        initial_state="non-hermitian", dt=rig.dt,
+                        process_tensor="exact ancilla qubit (SimpleProcessTensor, no stored dt)"))
+
+
 def search_values(report):
     """two-time correlations, both orderings, Hermitian and non-Hermitian operators and initial
     'states', against the exact joint evolution of system + ancilla"""
@@ -1338,8 +1419,10 @@ def run(tier, seed, replay):
         "the value of an entry depends only on its step tuple (the contraction is C03/C18's concern)",
     ]
     res.not_shown = [
-        "equality of each entry with the exact multi-time correlation of the joint evolution "
-        "(tensor-network contraction; properties C03/C18)",
+        "equality of each entry with the exact multi-time correlation of the joint evolution is "
+        "proved only up to the index pairing of the final value (entry_value); the contraction "
+        "itself is C03/C18's concern and is tied here by always-run comparisons with a brute-force "
+        "system+ancilla evolution (2 and 3 operators, non-symmetric operators, 1e-9), not proved",
         "that the assembly of the frequency-window kernels from their cells (kernel_table: signs, "
         "Bose factors, regions a/b/c) yields the bath correlation of the displaced-oscillator model "
         "is physics and not proved; it is pinned as a table and compared with the closed form on "
